@@ -5,6 +5,7 @@ import (
 	"context"
 	"encoding/json"
 	"fmt"
+	"math"
 	"math/big"
 	"math/rand"
 	"os"
@@ -60,6 +61,33 @@ func (w *World) tokenLog(tok string, exp int) fakeeth.LogSpec {
 	case strings.HasPrefix(tok, "l"):
 		t := tok[1:]
 		return fakeeth.LogSpec{Address: addrTarget, Topics: []common.Hash{sigFired, trigTopic(t)}, Data: append(word(150+w.Seed%50), word(7)...)}
+	case tok == "b": // a registration the processor must skip, in rotating ways
+		w.nBad++
+		prefix := crypto.Keccak256Hash([]byte(fmt.Sprintf("verif-bad-registration-%d", w.nBad)))
+		def, eon, expiry := trigDefinition("1"), uint64(eonOK), uint64(1_000_000)
+		switch (len(w.Blk) + int(w.Seed)) % 5 {
+		case 0:
+			def = []byte{0xff, 0x01, 0x02} // unsupported version
+		case 1:
+			def = []byte{0x02, 0xc0} // right version, RLP of an empty list: not decodable as a definition
+		case 2: // decodable, but not valid: a dynamic reference to a topic
+			d := shutterservice.EventTriggerDefinition{Contract: addrTarget, LogPredicates: []shutterservice.LogPredicate{{
+				LogValueRef:    shutterservice.LogValueRef{Dynamic: true, Offset: 1},
+				ValuePredicate: shutterservice.ValuePredicate{Op: shutterservice.BytesEq, ByteArgs: [][]byte{trigTopic("1").Bytes()}}}}}
+			def = d.MarshalBytes()
+		case 3: // decodable, but not valid: two BytesEq predicates on the same topic
+			lp := shutterservice.LogPredicate{LogValueRef: shutterservice.LogValueRef{Offset: 1},
+				ValuePredicate: shutterservice.ValuePredicate{Op: shutterservice.BytesEq, ByteArgs: [][]byte{trigTopic("1").Bytes()}}}
+			d := shutterservice.EventTriggerDefinition{Contract: addrTarget, LogPredicates: []shutterservice.LogPredicate{lp, lp}}
+			def = d.MarshalBytes()
+		default: // valid definition, eon or expiry above MaxInt64
+			if w.nBad%2 == 0 {
+				eon = uint64(math.MaxInt64) + 1
+			} else {
+				expiry = uint64(math.MaxInt64) + 1
+			}
+		}
+		return fakeeth.EventTriggerRegistered(addrTrigReg, eon, prefix, addrSender, def, expiry)
 	default: // "o": a log that matches nobody, in rotating ways
 		w.nOther++
 		switch (w.nOther + int(w.Seed)) % 4 {
@@ -89,6 +117,9 @@ func (w *World) MineT(p int, evs []string, exp int) int {
 			order[i], order[j] = order[j], order[i]
 		}
 	}
+	// a bad registration always comes first in its block: the case in which skipping it wrongly
+	// (e.g. giving up on the rest of the batch) shows
+	sort.SliceStable(order, func(i, j int) bool { return order[i] == "b" && order[j] != "b" })
 	for _, tok := range order {
 		logs = append(logs, w.tokenLog(tok, exp))
 	}
@@ -331,6 +362,8 @@ type TPlan struct {
 	NTrig                                                 int
 	ExpOffsets                                            []int
 	D, MaxR, Start0                                       int
+	MinForkNum                                            int
+	BadReg                                                bool // the alphabet contains registrations that must be skipped
 	MaxBeh                                                int
 	EnumEvery                                             int // every n-th history: each A step under every concrete fault
 }
@@ -345,10 +378,10 @@ func (p TPlan) cfgText(allowKnown bool) string {
 		offs = append(offs, fmt.Sprint(o))
 	}
 	return fmt.Sprintf("CONSTANTS\n  MaxBlocks = %d\n  MaxNum = %d\n  MaxLeaves = %d\n  MaxEntries = %d\n  MaxPerBlock = %d\n  NTrig = %d\n  ExpOffsets = {%s}\n"+
-		"  D = %d\n  MaxR = %d\n  Start0 = %d\n  Fetch = %q\n  AllowKnown = %s\n  Emit = TRUE\n  Faults = TRUE\n"+
+		"  D = %d\n  MaxR = %d\n  Start0 = %d\n  Fetch = %q\n  AllowKnown = %s\n  Emit = TRUE\n  Faults = TRUE\n  MinForkNum = %d\n  AllowBadReg = %s\n"+
 		"SPECIFICATION Spec\nINVARIANT C16_InvCex\nINVARIANT EmitInv\nVIEW View\nCHECK_DEADLOCK FALSE\n",
 		p.MaxBlocks, p.MaxNum, p.MaxLeaves, p.MaxEntries, p.MaxPerBlock, p.NTrig, strings.Join(offs, ", "),
-		p.D, p.MaxR, p.Start0, codeFetch, strings.ToUpper(fmt.Sprint(allowKnown)))
+		p.D, p.MaxR, p.Start0, codeFetch, strings.ToUpper(fmt.Sprint(allowKnown)), p.MinForkNum, strings.ToUpper(fmt.Sprint(p.BadReg)))
 }
 
 type TGen struct {
@@ -754,6 +787,14 @@ func plansC16(thorough bool) []TPlan {
 		{Name: "fork", MaxBlocks: d(5, 6), MaxNum: d(3, 4), MaxLeaves: 2, MaxEntries: d(2, 3), MaxPerBlock: d(1, 2), NTrig: 1, ExpOffsets: []int{1, 50},
 			D: 1, MaxR: 3, Start0: 1, MaxBeh: d(250, 6000), EnumEvery: d(3, 3)},
 	}
+	// registrations that must be skipped (undecodable / invalid definition, eon or expiry above
+	// MaxInt64) before, in the same block as, and after good ones
+	plans = append(plans, TPlan{Name: "lin-bad", MaxBlocks: d(4, 5), MaxNum: d(3, 4), MaxLeaves: 1, MaxEntries: d(3, 4), MaxPerBlock: 2, NTrig: d(1, 2), ExpOffsets: []int{50},
+		D: 2, MaxR: 3, Start0: 1, BadReg: true, MaxBeh: d(200, 4000), EnumEvery: d(4, 3)})
+	// shaped chains (forks and head switches only from block 2 on, registration and log only): with 6
+	// blocks the fired row sits just below, exactly at and just above the rollback target block
+	plans = append(plans, TPlan{Name: "fork-edge", MaxBlocks: d(6, 7), MaxNum: d(4, 5), MaxLeaves: 2, MaxEntries: 2, MaxPerBlock: 1, NTrig: 1, ExpOffsets: []int{50},
+		D: 1, MaxR: 3, Start0: 1, MinForkNum: 2, MaxBeh: d(200, 3000), EnumEvery: d(4, 3)})
 	if thorough {
 		// rollback deeper than the fork: fired rows of common blocks are deleted and fired again
 		plans = append(plans, TPlan{Name: "fork-d2", MaxBlocks: 6, MaxNum: 4, MaxLeaves: 2, MaxEntries: 3, MaxPerBlock: 1, NTrig: 1, ExpOffsets: []int{1, 50},
